@@ -4,6 +4,7 @@ import (
 	"bytes"
 	"encoding/json"
 	"fmt"
+	"github.com/scrapli/scrapligo/platform"
 	"os"
 	"strings"
 	"sync"
@@ -80,6 +81,8 @@ func c10Run(s *c10Scn, segName string, logEnc *json.Encoder, logMu *sync.Mutex) 
 	login := &simdev.Login{Inner: cli, EchoUser: s.Style == "telnet"}
 
 	longMotd := false
+	// every fifth scenario: the driver comes from a platform definition that carries the site's own prompt patterns
+	site := s.idx%5 == 4
 
 	for k, kind := range s.Script {
 		st := simdev.LoginStep{Kind: kind}
@@ -130,6 +133,19 @@ func c10Run(s *c10Scn, segName string, logEnc *json.Encoder, logMu *sync.Mutex) 
 			st.Text = c10SSHErrs[(s.idx+k)%len(c10SSHErrs)]
 		}
 
+		if site {
+			// a device that asks in its own words: none of the default patterns knows them, the patterns come with the platform
+			// definition the driver is built from (options block: username-pattern, password-pattern, passphrase-pattern)
+			switch kind {
+			case "askuser":
+				st.Text = "Benutzername: "
+			case "askpass":
+				st.Text = "Kennwort: "
+			case "askpassphrase":
+				st.Text = "Schluesselsatz fuer '/home/u/.ssh/id_ed25519': "
+			}
+		}
+
 		login.Steps = append(login.Steps, st)
 	}
 
@@ -170,8 +186,29 @@ func c10Run(s *c10Scn, segName string, logEnc *json.Encoder, logMu *sync.Mutex) 
 	chanLog := &bytes.Buffer{}
 	chanLogMu := &sync.Mutex{}
 
-	d, err := generic.NewDriver("sim", options.WithCustomTransport(ap), options.WithReadDelay(30*time.Microsecond), options.WithTimeoutOps(opTimeout),
-		options.WithAuthUsername(c10User), options.WithAuthPassword(pass), options.WithLogger(li), options.WithChannelLog(lockedWriter{chanLog, chanLogMu}))
+	dopts := []util.Option{options.WithCustomTransport(ap), options.WithReadDelay(30 * time.Microsecond), options.WithTimeoutOps(opTimeout),
+		options.WithAuthUsername(c10User), options.WithAuthPassword(pass), options.WithLogger(li), options.WithChannelLog(lockedWriter{chanLog, chanLogMu})}
+
+	var d *generic.Driver
+
+	var err error
+
+	if site {
+		def := "---\nplatform-type: 'verif-site'\ndefault:\n  driver-type: 'generic'\n  options:\n" +
+			"    - option: username-pattern\n      value: '(?im)^benutzername:\\s?$'\n" +
+			"    - option: passphrase-pattern\n      value: '(?im)^schluesselsatz fuer .*:\\s?$'\n" +
+			"    - option: password-pattern\n      value: '(?im)^kennwort:\\s?$'\n"
+
+		var pf *platform.Platform
+
+		pf, err = platform.NewPlatform([]byte(def), "sim", dopts...)
+		if err == nil {
+			d, err = pf.GetGenericDriver()
+		}
+	} else {
+		d, err = generic.NewDriver("sim", dopts...)
+	}
+
 	if err != nil {
 		fail(&v, "C10:new-error", "%v", err)
 
